@@ -528,8 +528,8 @@ func rename(a *ref.ASpec, mapping map[string]string) *ref.ASpec {
 
 func Run(cfg fw.Config, rec *fw.Rec) {
 	log.SetOutput(io.Discard)
-	rec.Rule = "generated specs (native and source actions, guards, missing / @variable / empty targets, orphans, terminal nodes, empty and absent branch lists, self-loops, parallel branches to one target; with and without the automatic error node) in two strata judged separately: identifier-like node names, and hostile names (spaces, quotes, ->, <, >, &, %, newlines, unicode, keywords; also pairs of names that differ only in a character and its escaped spelling, such as a\"b and a#quot;b); tools.Analyze is compared with a reference graph analysis, tools.Dot output is tokenised as DOT (ids, quoted strings, nestable HTML strings, attribute lists, ->) and tools.Mermaid output as a flowchart, and node / edge multisets are compared with the spec graph; tools.RenderSpecPage must return without error with one table row per node and per branch; non-trivial = spec with >= 2 nodes and >= 1 branch; distinct by spec"
-	rec.Required = []string{"plain_analysis_ok", "plain_dot_ok", "plain_mermaid_ok", "plain_html_ok", "lookalike_names_kept_apart", "native_action_rendered", "missing_target_rendered", "variable_target_rendered", "parallel_branches", "self_loop"}
+	rec.Rule = "generated specs (native and source actions, guards, missing / @variable / empty targets, orphans, terminal nodes, empty and absent branch lists, self-loops, parallel branches to one target; with and without the automatic error node) in two strata judged separately: identifier-like node names, and hostile names (spaces, quotes, ->, <, >, &, %, newlines, unicode, keywords; also pairs of names that differ only in a character and its escaped spelling, such as a\"b and a#quot;b); tools.Analyze is compared with a reference graph analysis, tools.Dot output is tokenised as DOT (ids, quoted strings, nestable HTML strings, attribute lists, ->) and tools.Mermaid output as a flowchart, and node / edge multisets are compared with the spec graph; a third of the specs are also rendered with five (from, to) transitions to highlight (existing nodes, start, empty, unknown names), which must not change the node and edge multisets; tools.RenderSpecPage must return without error with one table row per node and per branch; non-trivial = spec with >= 2 nodes and >= 1 branch; distinct by spec"
+	rec.Required = []string{"plain_analysis_ok", "plain_dot_ok", "plain_mermaid_ok", "plain_html_ok", "lookalike_names_kept_apart", "rendered_with_a_transition_to_highlight", "native_action_rendered", "missing_target_rendered", "variable_target_rendered", "parallel_branches", "self_loop"}
 	rec.Assume = []string{"DOT and Mermaid subsets as emitted by the tools (the tokenizers accept what Graphviz / Mermaid accept for these constructs)", "the hostile-name stratum is judged separately so a finding there cannot mask the plain stratum"}
 	n := cfg.Pick(6000, 1000000)
 	fw.Parallel(cfg.Workers, n, func(w, i int) {
@@ -653,6 +653,62 @@ func Run(cfg fw.Config, rec *fw.Rec) {
 				ok = false
 			} else {
 				rec.Bucket(stratum + "_mermaid_ok")
+			}
+		}
+		// the highlight arguments (a transition to mark) must not change what is rendered
+		if i%3 == 1 && ok {
+			ns := make([]string, 0, len(spec.Nodes))
+			for nm := range spec.Nodes {
+				ns = append(ns, nm)
+			}
+			sort.Strings(ns)
+			pairs := [][2]string{{ns[r.Intn(len(ns))], ns[r.Intn(len(ns))]}, {"start", ns[r.Intn(len(ns))]}, {ns[r.Intn(len(ns))], ""}, {"no-such-node", ns[0]}, {ns[len(ns)-1], "no-such-node"}}
+			for _, ft := range pairs {
+				var hb2 closer
+				var herr2 error
+				if rec.Guard("C20:"+stratum+":dot-highlight", replay, func() { herr2 = tools.Dot(spec, &hb2, ft[0], ft[1]) }) {
+					ok = false
+					break
+				}
+				rec.Eval(1)
+				if herr2 != nil {
+					rec.Violation("C20:"+stratum+":dot-error", fmt.Sprintf("Dot with the transition %q -> %q to highlight returned an error: %v", ft[0], ft[1], herr2), replay)
+					ok = false
+					break
+				}
+				got, perr := parseDot(hb2.String())
+				if perr == nil {
+					if why := compareGraph(want, extra, got, "dot"); why != "" {
+						perr = fmt.Errorf("%s", why)
+					}
+				}
+				if perr != nil {
+					rec.Violation("C20:"+stratum+":dot-highlight-changes-graph", fmt.Sprintf("Dot with the transition %q -> %q to highlight: %v", ft[0], ft[1], perr), map[string]interface{}{"case": replay, "from": ft[0], "to": ft[1], "output": hb2.String()})
+					ok = false
+					break
+				}
+				var mb2 closer
+				if rec.Guard("C20:"+stratum+":mermaid-highlight", replay, func() { herr2 = tools.Mermaid(spec, &mb2, nil, ft[0], ft[1]) }) {
+					ok = false
+					break
+				}
+				rec.Eval(1)
+				gotm, perr := parseMermaid(mb2.String())
+				if herr2 != nil {
+					perr = herr2
+				}
+				if perr == nil {
+					w, ex := readAs(want, extra, mermaidReading)
+					if why := compareGraph(w, ex, gotm, "mermaid"); why != "" {
+						perr = fmt.Errorf("%s", why)
+					}
+				}
+				if perr != nil {
+					rec.Violation("C20:"+stratum+":mermaid-highlight-changes-graph", fmt.Sprintf("Mermaid with the transition %q -> %q to highlight: %v", ft[0], ft[1], perr), map[string]interface{}{"case": replay, "from": ft[0], "to": ft[1], "output": mb2.String()})
+					ok = false
+					break
+				}
+				rec.Bucket("rendered_with_a_transition_to_highlight")
 			}
 		}
 		// the HTML page (tools.RenderSpecPage): total, one table row per node, one per branch
